@@ -110,7 +110,8 @@ def template(layout, style):
     notag = style.endswith("-notag")
     style = style.replace("-notag", "")
     assert not (notag and tag_in_dir)
-    name = ("" if tag_in_dir or notag else "{tag}_") + START
+    # a second user placeholder {ver} (same value for every file) gives filters with several black lists something to act on
+    name = ("" if notag else "{ver}_" if tag_in_dir else "{tag}_{ver}_") + START
     if style == "fullend":
         name += "-" + END
     elif style == "partialend":
@@ -138,7 +139,7 @@ class Tree:
         self.path_of = {}
         self.id_of = {}
         for fid, t0, t1, tag in files:
-            p = probe.get_filename((emb.t(t0), emb.t(t1)), fill={"tag": TAGNAME[tag]})
+            p = probe.get_filename((emb.t(t0), emb.t(t1)), fill={"tag": TAGNAME[tag], "ver": "v1"})
             os.makedirs(os.path.dirname(p), exist_ok=True)
             with open(p, "wb") as fh:
                 fh.write(b"%d" % fid)
@@ -171,5 +172,7 @@ def filters_of(white, black):
         f["tag"] = names[0] if len(names) == 1 else names
     if black:
         names = [TAGNAME[t] for t in sorted(black)]
+        # an additional black list that rejects nothing, listed FIRST: the effective one must still be honoured
+        f["!ver"] = "v9"
         f["!tag"] = names[0] if len(names) == 1 else names
     return f
